@@ -23,7 +23,7 @@ func runC15(c *Ctx) {
 	if c.Thorough() {
 		nSeq = 300
 	}
-	c.R.Rule = fmt.Sprintf("(a) %d random histories per persistent instance (bolt file, multi- and single-bucket fs on a real directory and on a retained MemMapFs) over the alphabet of C02 with 'close the server and start a new one on the same storage' inserted at random points and at the end; every answer after a reopen is compared with the Lean model (for which reopen keeps buckets/objects and forgets pending uploads) and the reference model; (b) crash points, in process: for every operation of a fixed history (first put, nested put, overwrite, larger overwrite, delete, multi-delete, copy) and every k, the k-th mutating filesystem call of the operation is cut (a write stores half of its buffer, later calls fail), a new server is started on the storage, and the specification is evaluated: every write acknowledged before the cut is intact, the operation in flight is wholly present or wholly absent, and every GET and listing answers without a 5xx; the number of crash points per operation is recorded; (c) the real server binary built from cmd/gofakes3 and run as a process on loopback for bolt, fs (with and without -fs.meta) and directfs (with -directfs.meta, default and custom bucket): a random put/overwrite/delete history with Content-Type and user metadata over HTTP, kill -9 while idle, a new process with the same flags: the same listing and for every acknowledged key the same status, bytes, ETag and metadata; non-trivial = distinct (instance, operation, crash point)", nSeq)
+	c.R.Rule = fmt.Sprintf("(a) %d random histories per persistent instance (bolt file, multi- and single-bucket fs on a real directory and on a retained MemMapFs) over the alphabet of C02 with 'close the server and start a new one on the same storage' inserted at random points and at the end; every answer after a reopen is compared with the Lean model (for which reopen keeps buckets/objects and forgets pending uploads) and the reference model; (b) crash points, in process: for every operation of a fixed history (first put, nested put, overwrite, larger overwrite, delete, multi-delete, copy) and every k, the k-th mutating filesystem call of the operation is cut (a write stores half of its buffer, later calls fail), a new server is started on the storage, and the specification is evaluated: every write acknowledged before the cut is intact, the operation in flight is wholly present or wholly absent, and every GET and listing answers without a 5xx; the number of crash points per operation is recorded; (c) the real server binary built from cmd/gofakes3 and run as a process on loopback for bolt, fs (with and without -fs.meta) and directfs (with -directfs.meta, default and custom bucket): a random put/overwrite/delete history with Content-Type and user metadata over HTTP, kill -9 while idle, a new process with the same flags: the same listing and for every acknowledged key the same status, bytes, ETag and metadata; (d) bolt with fsync on: while a key is overwritten in a loop (PUT, copy onto it, multipart complete onto it) a second goroutine keeps taking snapshots of the committed database (what a process killed at that moment restarts from); a new server on every snapshot must show the untouched key intact and the key in flight with the complete body, ETag and metadata of one upload between the last acknowledged and the last started; non-trivial = distinct (instance, operation, crash point)", nSeq)
 	// (a) reopen
 	for _, kind := range c.kinds([]string{"bolt", "fsM-dir", "fsS-dir", "fsM-mem", "fsS-mem"}) {
 		for s := 0; s < nSeq; s++ {
@@ -33,6 +33,10 @@ func runC15(c *Ctx) {
 	// (b) crash points
 	for _, kind := range c.kinds([]string{"fsM-mem", "fsS-mem", "fsM-dir", "fsS-dir"}) {
 		c15Crash(c, kind)
+	}
+	// (d) bolt: snapshots of the committed database while a key is being overwritten
+	if c.Only == "" || c.Only == "bolt" {
+		c15BoltCommitted(c)
 	}
 	// (c) the real server binary
 	if c.Only == "" || c.Only == "bolt" || strings.HasSuffix(c.Only, "-dir") {
